@@ -3,9 +3,12 @@
    every emit unit, ending at a scalar / string / bytes element (GetTo, Compare, Length,
    Capacity, DeepEqual, SetWithBuffer) or at a slice (Loop), with the object handed in as *T and
    as **T (and, where the property is silent, by value).  The demand is zero heap allocations; there is no model of the Go compiler's escape analysis: this part of the
-   property is measured, not proved. *)
+   property is measured, not proved.
+   Second part (below, [hand_lines]): what the emitted Loop HANDS OUT to the iterator - the
+   inspectors that come with keys and elements - at every place a map or slice is iterated;
+   predicted by the Loop model of C09 (Model/Loop.v), demanded to be free of reflection. *)
 From Coq Require Import List Bool String Ascii ZArith Arith.
-From Verif Require Import Util Ints Node GoSrc Value Outcome Nav Shapes EnumVal GenUnits GenC10 GetSpec.
+From Verif Require Import Util Ints Node GoSrc Value Outcome Nav Loop LoopSpec Shapes EnumVal GenUnits GenC10 GetSpec.
 Import ListNotations.
 Local Open Scope string_scope.
 
@@ -97,4 +100,140 @@ Definition case_lines (u : string * ty) : list string :=
   let first (sl : bool) := match find (fun p => Bool.eqb (fst p) sl) pts with Some p => [p] | None => [] end in
   map (line ptr_forms false) pts ++ map (line ["v"] true) (first false ++ first true).
 
-Definition cases (tier : Z) (seed : Z) : list string := flat_map case_lines (emit_units tier).
+(* ---------- what generated code HANDS OUT: the inspectors Loop passes to the iterator ----------
+   "Generated inspectors never use reflection" covers the code a generated method delegates to as
+   well: Loop gives the iterator, with every key and every element, the inspector to read it
+   with (Iterator.SetKey / SetVal).  For every unit and every place of its Loop that iterates
+   a map or a non-byte slice (the paths of every value variant that denote one, Spec/LoopSpec.v
+   [denoted]: roots, fields, entries of maps, elements of slices that are collections
+   themselves, whatever the element is - scalar, string, struct, pointer, nested map, nested
+   slice, named or not: every element kind the units have) Loop is run over a value in which
+   that collection has elements, with the object handed in by value, as *T and as **T, with an
+   iterator that wants every key, and the DYNAMIC TYPES of all inspectors it was handed are
+   collected (harness/emit/op_handout.go):
+       key=<set>;val=<set>      a set = sorted names joined by '+', '-' when nothing was handed
+   A name is the TypeName() of an inspector a generator wrote (package <pkg>_ins) or of one of the
+   library's inspectors listed below; any other library type prints as lib:<Go type name>, any
+   other type as foreign:<Go type>.
+   model: the inspector names in the trace of Model/Loop.v [loop_method] (the model of the
+   emitted Loop already carries them: [elem_ins]), over the three forms.
+   spec: from the property text - whatever is handed out must not be reflection based. *)
+
+(* the inspectors of the library that do without package reflect (static.go, strings.go,
+   stranymap.go import no reflect; reflect.go - ReflectInspector - is the reflection based
+   one), by TypeName() *)
+Definition unreflective_builtins : list string := ["static"; "strings"; "map[string]any"].
+
+(* a generator writes an inspector for every named struct, map and slice type: the one of the
+   element's own type, when it has a name, needs no reflection either *)
+Definition own_inspector (en : node) : list string :=
+  match n_typ en with
+  | typeBasic => []
+  | _ => if looks_unnamed (n_typn en) || String.eqb (n_typn en) "" then [] else [n_typn en]
+  end.
+
+Definition every_key : script := {| wants := fun _ => true; ctls := fun _ => CNone |}.
+Definition as_listed (l : list (val * val)) : list (val * val) := l.
+
+Definition pr_names (l : list string) : string :=
+  match sort_strs (dedup_str l) with [] => "-" | s => join "+" s end.
+
+Definition handed_keys (tr : trace) : list string :=
+  flat_map (fun e => match e with ESetKey _ i => [i] | _ => [] end) tr.
+Definition handed_vals (tr : trace) : list string :=
+  flat_map (fun e => match e with ESetVal _ i => [i] | _ => [] end) tr.
+
+Definition hand_forms : list string := ["v"; "p"; "pp"].
+
+(* the model column: what the emitted Loop (Model/Loop.v) hands over, all forms together *)
+Definition hand_model (n : node) (v : val) (path : list string) : string :=
+  let outs := map (fun f => loop_method every_key as_listed n (arg_of_form f v) path) hand_forms in
+  match find (fun o => match o with Ret _ _ => false | _ => true end) outs with
+  | Some (Panic k) => "PANIC:" ++ pr_pkind k
+  | Some _ => "?"
+  | None =>
+    match find (fun o => match o with Ret _ (Some _) => true | _ => false end) outs with
+    | Some (Ret _ e) => "e=" ++ pr_err e
+    | _ =>
+    let trs := flat_map (fun o => match o with Ret tr _ => tr | _ => [] end) outs in
+    "key=" ++ pr_names (handed_keys trs) ++ ";val=" ++ pr_names (handed_vals trs)
+    end
+  end.
+
+(* the spec column: nothing, or one kind of inspector that works without reflection - for a
+   key (a text) one of the library's, for an element one of the library's or the generated
+   inspector of the element's own type *)
+Definition hand_spec (en : node) : string :=
+  let ks := "-" :: unreflective_builtins in
+  let vs := "-" :: unreflective_builtins ++ own_inspector en in
+  join " || " (flat_map (fun k => map (fun x => "key=" ++ k ++ ";val=" ++ x) vs) ks).
+
+Definition elem_kind_tag (en : node) : string :=
+  (if n_ptr en then "e:ptr-" else "e:") ++
+  match n_typ en with
+  | typeBasic => if String.eqb (n_typu en) "string" then "string" else "scalar"
+  | typeStruct => "struct"
+  | typeMap => if looks_unnamed (n_typn en) then "map" else "namedmap"
+  | typeSlice => if String.eqb (n_typn en) "[]byte" then "bytes"
+                 else if looks_unnamed (n_typn en) then "slice" else "namedslice"
+  end.
+
+(* the place in the emitted Loop a path leads to: field names kept, map keys and slice indices
+   (one piece of emitted code serves all of them) replaced by a star *)
+Fixpoint site (n : node) (path : list string) {struct path} : list string :=
+  match path with
+  | [] => []
+  | seg :: rest =>
+    match n_typ n with
+    | typeStruct =>
+      seg :: match find (fun ch => String.eqb (n_name ch) seg) (n_chld n) with Some ch => site ch rest | None => rest end
+    | typeMap => "*" :: match n_mapv n with Some vn => site vn rest | None => rest end
+    | typeSlice => "*" :: match n_slct n with Some en => site en rest | None => rest end
+    | typeBasic => seg :: rest
+    end
+  end.
+
+(* one case per unit and loop site: the first value variant and path in which the collection
+   there has elements (a Loop over an empty collection hands nothing out) *)
+Definition is_basic_elem (en : node) : bool := match n_typ en with typeBasic => true | _ => false end.
+
+Definition hand_lines (u : string * ty) : list (bool * string) :=
+  let n := root_node u in
+  let pts := flat_map (fun iv : nat * val =>
+    let '(vi, v) := iv in
+    flat_map (fun pt : tagged =>
+      let path := fst pt in
+      match denoted n v path with
+      | LSlice el es => [(join "." (site n path), (vi, v, path, el, "c:slice", List.length es))]
+      | LMap kn vn kvs => [(join "." (site n path), (vi, v, path, vn, "c:map", List.length kvs))]
+      | _ => []
+      end) (paths n v))
+    (combine (seqn (List.length (variants n))) (variants n)) in
+  let keys := rev (dedup_str (rev (map fst pts))) in
+  flat_map (fun k =>
+    let mine := filter (fun p => String.eqb (fst p) k) pts in
+    match find (fun p => match snd p with (_, _, _, _, _, len) => negb (Nat.eqb len 0) end) mine with
+    | Some p =>
+      let '(_, (vi, v, path, en, ctag, len)) := p in
+      [(is_basic_elem en && String.prefix "T" (fst u),
+       fst u ++ "." ++ nat_to_string vi ++ ".hand." ++ path_text path ++ tab ++
+       "handout," ++ ctag ++ "," ++ elem_kind_tag en ++ tab ++
+       fst u ++ ";" ++ join "+" hand_forms ++ ";handout;" ++ path_text path ++ ";" ++ pr_val true v ++ tab ++
+       hand_model n v path ++ tab ++ hand_spec en)]
+    | None => []
+    end) keys.
+
+(* quick tier: the sites whose elements are scalars or strings (one emitter branch serves them all) of
+   the single-shape units T<i> are thinned to every second one; all other sites, and the thorough
+   tier, are complete *)
+Fixpoint thin (keep : bool) (l : list (bool * string)) : list string :=
+  match l with
+  | [] => []
+  | (false, s) :: r => s :: thin keep r
+  | (true, s) :: r => if keep then s :: thin false r else thin true r
+  end.
+
+Definition cases (tier : Z) (seed : Z) : list string :=
+  flat_map case_lines (emit_units tier) ++
+  (let hl := flat_map hand_lines (emit_units tier) in
+   if Z.eqb tier 0 then thin true hl else map snd hl).
